@@ -48,6 +48,42 @@ def _walk_values(e):
     stack.extend(ast.iter_child_nodes(n))
 
 
+def annotations_read_fresh_state(chk, rid):
+  """Clones made by a functor application inherit @OrderBy / @Limit / @Ground /
+  @NoInject / @Iteration of the predicate they copy.  CollectAnnotations must
+  therefore read state that is recomputed as a whole after every application
+  (UpdateStructure assigns it with a plain `self.x = ...`), not an index that
+  is only patched for some predicates: the copies of an earlier application
+  are predicates too, and the next application clones them again."""
+  repo = chk.repo
+  us = repo.func('functors.Functors.UpdateStructure')
+  fresh = set()
+  for x in walk_local(us.node):
+    if isinstance(x, ast.Assign):
+      for t in x.targets:
+        d = dotted(t)
+        if d and d.startswith('self.') and d.count('.') == 1:
+          fresh.add(d[5:])
+  ca = repo.func('functors.Functors.CollectAnnotations')
+  reads = set()
+  for x in walk_local(ca.node):
+    if isinstance(x, ast.Attribute) and isinstance(x.value, ast.Name) and x.value.id == 'self' \
+        and isinstance(x.ctx, ast.Load):
+      reads.add(x.attr)
+  cls = repo.by_name('functors').cls('Functors')
+  state = {a for a in reads if a not in cls.methods}
+  if not state:
+    raise AnalysisError('CollectAnnotations reads no state of Functors')
+  stale = sorted(a for a in state if a not in fresh)
+  chk.ob(rid, not stale, None,
+         'CollectAnnotations reads only state that UpdateStructure recomputes after every application (%s)'
+         % ', '.join(sorted(state)),
+         'CollectAnnotations reads self.%s, which UpdateStructure does not '
+         'recompute as a whole: annotations of predicates created by an earlier '
+         'application are missing from it, so their copies lose @OrderBy / @Limit '
+         '/ @Ground / @NoInject' % ', self.'.join(stale), fi=ca)
+
+
 def run(chk):
   repo = chk.repo
   chk.rule('C04-R1', 'clone ownership: predicate renaming only touches deep '
@@ -154,6 +190,64 @@ def run(chk):
   chk.ob('C04-R1', ok, None, 'argument maps are rebuilt after every application',
          'args_of / rules_of are stale after a functor application: later '
          'applications clone the wrong set of predicates', fi=v.fi)
+
+  # the cache of transitive arguments (args_of) decides which predicates are
+  # cloned by the next application: after an application it is dropped for
+  # every predicate whose cached set mentions the new predicate - not only for
+  # its direct users
+  us = FnView(repo, 'functors.Functors.UpdateStructure')
+  new_p = [p_ for p_ in us.fi.params if p_ != 'self'][0]
+  inval = []
+  whole = False
+  for n in us.cfg.stmt_nodes():
+    st = us.cfg.stmt[n]
+    if isinstance(st, ast.Delete) and any('args_of' in norm(t) and 'direct' not in norm(t)
+                                          for t in st.targets):
+      inval.append(n)
+    elif isinstance(st, ast.Expr) and isinstance(st.value, ast.Call) and \
+        call_tail(st.value) in ('pop', 'clear') and (receiver(st.value) or '').endswith('.args_of'):
+      if call_tail(st.value) == 'clear':
+        whole = True
+      inval.append(n)
+    elif isinstance(st, ast.Assign) and dotted(st.targets[0]) == 'self.args_of' and \
+        isinstance(st.value, ast.Dict) and not st.value.keys:
+      whole = True
+      inval.append(n)
+  if not inval:
+    raise AnalysisError('UpdateStructure: invalidation of args_of not found')
+
+  def provenance(name_node_id, ctx_nodes):
+    """text of what the container tested for membership is drawn from."""
+    for x in ctx_nodes:
+      tg, it = None, None
+      if isinstance(x, (ast.For, ast.comprehension)):
+        tg, it = x.target, x.iter
+      if tg is not None and any(isinstance(t, ast.Name) and t.id == name_node_id for t in ast.walk(tg)):
+        return us.deep_text(us.expand(it))
+    return ''
+  ok = whole
+  why = 'no membership test of the new predicate selects what is invalidated'
+  all_nodes = list(walk_local(us.fi.node))
+  for x in all_nodes:
+    if isinstance(x, ast.Compare) and len(x.ops) == 1 and isinstance(x.ops[0], ast.In) and \
+        dotted(x.left) == new_p:
+      c = x.comparators[0]
+      text = us.deep_text(us.expand(c))
+      if isinstance(c, ast.Name):
+        text += ' ' + provenance(c.id, all_nodes)
+      if 'direct_args_of' in text:
+        ok, why = False, ('only predicates that call the new predicate directly are '
+                          'invalidated (`%s` over direct_args_of)' % norm(x, 50))
+        break
+      if 'args_of' in text:
+        ok = True
+  chk.ob('C04-R1', ok, None,
+         'after an application the cached transitive arguments of every predicate that reaches the new predicate are dropped',
+         '%s: a predicate that reaches the functor value through an intermediate '
+         'predicate keeps a stale argument set, and the next application does not '
+         'clone what lies below it' % why, fi=us.fi)
+
+  annotations_read_fresh_state(chk, 'C04-R1')
 
   chk.rule('C04-R2', 'call cache: the key depends on the functor and on keys '
            'and values of exactly the relevant bindings (sorted); the cache is '
